@@ -37,8 +37,15 @@ class Suite:
                 if im != 0:
                     zero.append(ring.poly_str(im))
         except ring.NotPolynomial as e:
-            self.obligations.append({'name': name, 'what': what, 'unsupported': str(e), 'zero': [], 'vars': [],
-                                     'functions': list(functions)})
+            # outside the polynomial fragment: a numeric counterexample still refutes the identity
+            cex = numeric_refutation(g, w)
+            if cex is not None:
+                self.obligations.append({'name': name, 'what': what + ' -- refuted numerically at %s' % cex['at'],
+                                         'ground': False, 'zero': [], 'vars': [], 'functions': list(functions),
+                                         'numeric': cex})
+            else:
+                self.obligations.append({'name': name, 'what': what, 'unsupported': str(e), 'zero': [], 'vars': [],
+                                         'functions': list(functions)})
             return
         used = set()
         for z in zero:
@@ -122,6 +129,26 @@ class Suite:
 
     def result(self):
         return {'status': 'ok', 'obligations': self.obligations, 'errors': self.errors, 'skipped': self.skipped}
+
+
+def numeric_refutation(got, want, values=(0.3, -0.77, 1.234, -0.125, 2.25)):
+    """try to refute got == want (flat lists of sympy expressions) by evaluating at a few real values of the
+    free symbols; returns None or dict(at, got, want)"""
+    syms = set()
+    for e in list(got) + list(want):
+        syms |= sympy.sympify(e).free_symbols
+    syms = sorted(syms, key=str)
+    for shift in range(len(values)):
+        env = {s: values[(k + shift) % len(values)] for k, s in enumerate(syms)}
+        try:
+            a = [complex(sympy.sympify(e).subs(env).evalf()) for e in got]
+            b = [complex(sympy.sympify(e).subs(env).evalf()) for e in want]
+        except Exception:
+            return None
+        if any(abs(x - y) > 1e-8 for x, y in zip(a, b)):
+            return {'at': {str(k): v for k, v in env.items()}, 'got': [repr(x) for x in a[:8]],
+                    'want': [repr(x) for x in b[:8]]}
+    return None
 
 
 def numeric_witness(fn_got, fn_want, phases=(0.3, -0.77, 1.234)):
